@@ -14,7 +14,7 @@ from concurrent.futures import ProcessPoolExecutor, ThreadPoolExecutor
 from ..common import MachineryError, write_cfg, REPO
 from .. import forms
 
-REJECT = (TypeError, NotImplementedError, ValueError, RuntimeError, AssertionError, ZeroDivisionError, IndexError)
+REJECT = (TypeError, NotImplementedError, ValueError, RuntimeError, AssertionError, ZeroDivisionError)   # IndexError etc. are failures
 
 
 def _export_chunk(args):
